@@ -247,10 +247,10 @@ def update_node(node_id: str,
     else:
         copy_nodes = [node_id, parent_id]
         current_state = parent_state.deepcopy_parts(copy_nodes)
-    if bug_config.fixed_rank:
-        mode = SplitMode.KEEP
-    else:
-        mode = SplitMode.REDUCED
+    # The bond dimension to the parent has to be kept, since the shapes in
+    # the new state refer to it. A reduced split would shrink a bond that is
+    # larger than the space the parent can support.
+    mode = SplitMode.KEEP
     current_state.move_orthogonalization_center(node_id, mode=mode)
     current_cache = copy(parent_tensor_cache)
     current_cache.state = current_state
